@@ -62,6 +62,10 @@ pub enum ModelEvaluatorError {
   EmptyFunctionBody,
   #[error("empty value expression")]
   EmptyValueExpression,
+  #[error("decision table has no output clause")]
+  DecisionTableWithoutOutputClause,
+  #[error("rule {0} of the decision table must have {1} input entries and {2} output entries")]
+  InvalidNumberOfRuleEntries(usize, usize, usize),
   #[error("read lock failed with reason '{0}'")]
   ReadLockFailed(String),
   #[error("write lock failed with reason '{0}'")]
@@ -124,6 +128,14 @@ pub fn err_empty_function_body() -> DmntkError {
 
 pub fn err_empty_value_expression() -> DmntkError {
   ModelEvaluatorError::EmptyValueExpression.into()
+}
+
+pub fn err_decision_table_without_output_clause() -> DmntkError {
+  ModelEvaluatorError::DecisionTableWithoutOutputClause.into()
+}
+
+pub fn err_invalid_number_of_rule_entries(rule: usize, inputs: usize, outputs: usize) -> DmntkError {
+  ModelEvaluatorError::InvalidNumberOfRuleEntries(rule, inputs, outputs).into()
 }
 
 pub fn err_read_lock_failed(reason: impl ToString) -> DmntkError {
